@@ -83,6 +83,25 @@ Theorem C17_global_once_per_centre : forall g ops pre n a k qlens post,
 Proof. exact m_global. Qed.
 Print Assumptions C17_global_once_per_centre.
 
+(* ... in particular a subscribed centre whose own queue has room for the k copies gets all
+   of them, whatever the other centres' queues hold (a full queue elsewhere starves nobody) *)
+Theorem C17_global_not_starved : forall g ops pre n a k qlens post,
+  run g ops = pre ++ VGPub n a k qlens :: post ->
+  forall c, In c local_centres -> has_g_live (view_of pre) c n = true ->
+    qlen (view_of pre) c + k <= QCAP ->
+    queue_of (view_of (pre ++ [VGPub n a k qlens])) c =
+    queue_of (view_of pre) c ++ repeat (n, a) (Z.to_nat k).
+Proof. exact m_not_starved. Qed.
+Print Assumptions C17_global_not_starved.
+
+(* a bulk receive by the owner returns a prefix of the pending events, in queue order
+   ([items] is run-length encoded: [expand] writes the runs out) *)
+Theorem C17_discard_prefix : forall g ops pre c items post,
+  run g ops = pre ++ VDrop c items :: post ->
+  queue_of (view_of pre) c = expand items ++ queue_of (view_of (pre ++ [VDrop c items])) c.
+Proof. exact m_drop. Qed.
+Print Assumptions C17_discard_prefix.
+
 (* the owner receives queued events oldest first, each once (it is then dispatched by DoEvent
    as a publication to which the theorems above apply) *)
 Theorem C17_queue_fifo : forall g ops pre c n a post,
@@ -159,9 +178,21 @@ Example C17_example_global_and_full_queue :
   run [] [OAct (ASub 1 7 1 0 [] 0); OAct (ASub 0 7 0 0 [3] 0); OAct (AGPub 7 [1] 998);
           OAct (AGPub 7 [2] 1); OAct (AGPub 7 [3] 1); ODrain 1 1; OAct (APub 1 7 [4]);
           OAct (APub 1 7 [5])] =
-  [VOp; VSub 1 1 7 true []; VOp; VSub 2 0 7 false [3]; VOp; VGPub 7 [1] 998 [0; 998; 0]; VOp;
-   VGPub 7 [2] 1 [0; 999; 0]; VOp; VGPub 7 [3] 1 [0; 999; 0]; VOp; VDeq 1 7 [1]; VBegin 1 1 7 [1];
+  [VOp; VSub 1 1 7 true []; VOp; VSub 2 0 7 false [3]; VOp; VGPub 7 [1] 998 [0; 998; 0; 0]; VOp;
+   VGPub 7 [2] 1 [0; 999; 0; 0]; VOp; VGPub 7 [3] 1 [0; 999; 0; 0]; VOp; VDeq 1 7 [1]; VBegin 1 1 7 [1];
    VInv 1 1 [1]; VRet 1 true; VEnd 1; VOp; VEnq 1 7 [4]; VOp; VEnq 1 7 [5]; VDeadlock].
+Proof. vm_compute. reflexivity. Qed.
+
+(* centre 1 full (999, filled through its private name 8), centres 2 and 3 healthy, all three
+   GSubscribe'd to name 7: 2 and 3 get the publication, 1 drops it; bulk receive shows the content *)
+Example C17_example_one_full_others_served :
+  run [] [OAct (ASub 1 7 1 0 [1] 0); OAct (ASub 2 7 1 0 [2] 0); OAct (ASub 3 7 1 0 [3] 0);
+          OAct (ASub 1 8 1 0 [] 0); OAct (AGPub 8 [0] 999); OAct (AGPub 7 [5] 1);
+          ODiscard 2 10; ODrain 3 1; ODiscard 1 1200] =
+  [VOp; VSub 1 1 7 true [1]; VOp; VSub 2 2 7 true [2]; VOp; VSub 3 3 7 true [3]; VOp;
+   VSub 4 1 8 true []; VOp; VGPub 8 [0] 999 [0; 999; 0; 0]; VOp; VGPub 7 [5] 1 [0; 999; 1; 1];
+   VOp; VDrop 2 [(1, (7, [5]))]; VOp; VDeq 3 7 [5]; VBegin 1 3 7 [5]; VInv 1 3 [3; 5]; VRet 3 true; VEnd 1;
+   VOp; VDrop 1 [(999, (8, [0]))]].
 Proof. vm_compute. reflexivity. Qed.
 
 (* light centre: Subscribe de-duplicates by code pointer (codes 1 and 5 are the same function
